@@ -1,7 +1,7 @@
 (* Out/External.v — C16: links into an externalised project.
 
    MODEL of, as they are:
-     ford/external_project.py  obj2dict, dump_modules           -> [export_ent], [export]
+     ford/external_project.py  obj2dict, is_documented, dump_modules -> [export_ent], [export]
                                dict2obj                          -> [import_node], [import_fuel], [import_val]
                                load_external_modules             -> [load], [load_json], [load_all], [CAUGHT]
                                ATTRIBUTES, ENTITIES              -> [ATTRIBUTES], [entity_class]
@@ -205,8 +205,9 @@ Fixpoint export_ent (idf : nat -> str) (cfg : acfg) (pk : option kind) (purl : o
          match l with
          | [] => []
          | c :: r =>
-           if kind_eqb (e_kind c) k' && accessible c
-           then (lower (e_name c), export_ent idf cfg (Some k) url (shown (c_display cfg) c) c) :: go r
+           (* is_documented: an entity that is no longer in its container's list is left out *)
+           if kind_eqb (e_kind c) k' && accessible c && listed cfg kept k c
+           then (lower (e_name c), export_ent idf cfg (Some k) url kept c) :: go r
            else go r
          end) kids in
     (* all_procs: routines (functions, subroutines) first, then the interfaces; the other dicts
